@@ -73,7 +73,9 @@ def refine(ex, test_ast, env, label):
 MUTATORS = {"append", "add", "appendleft", "extend", "insert", "pop", "popleft", "remove", "clear", "sort", "reverse",
             "discard", "update", "setdefault", "popitem", "rotate"}
 PURE_METHODS = {"lower", "upper", "strip", "lstrip", "rstrip", "startswith", "endswith", "casefold",
-                "split", "isdigit", "isnumeric", "isdecimal", "find", "get", "keys", "items", "values", "count"}
+                "split", "isdigit", "isnumeric", "isdecimal", "find", "get", "keys", "items", "values", "count",
+                "join", "encode", "decode", "replace", "partition", "rpartition", "rsplit", "title", "isalpha", "isalnum",
+                "isspace", "isupper", "islower", "rfind", "index", "zfill", "hex", "capitalize", "swapcase"}
 
 
 class Outcome:
@@ -270,6 +272,32 @@ class Explorer:
                 return v[i]
             except Exception:
                 return UNKNOWN
+        if isinstance(e, ast.JoinedStr) or (isinstance(e, ast.BinOp) and isinstance(e.op, ast.Mod) and isinstance(e.left, ast.Constant) and isinstance(e.left.value, str)) \
+                or (isinstance(e, ast.Call) and isinstance(e.func, ast.Attribute) and e.func.attr == "format" and isinstance(e.func.value, ast.Constant)):
+            from .astutil import fmt_parts
+            parts = fmt_parts(e)
+            if parts is None:
+                return UNKNOWN
+            out = []
+            for p in parts:
+                if isinstance(p, str):
+                    out.append(p)
+                    continue
+                v = self.ev(p[1], env)
+                if v is UNKNOWN or isinstance(v, _Refined):
+                    return UNKNOWN
+                try:
+                    if p[2] == "s":
+                        out.append(str(v))
+                    elif p[2] in ("r", "a"):
+                        out.append(repr(v))
+                    elif p[2] in ("d", "i", "x", "X", "o", "f", "c"):
+                        out.append(("%" + p[2]) % v)
+                    else:
+                        return UNKNOWN
+                except Exception:
+                    return UNKNOWN
+            return "".join(out)
         if isinstance(e, ast.BinOp):
             l, r = self.ev(e.left, env), self.ev(e.right, env)
             if l is UNKNOWN or r is UNKNOWN:
